@@ -16,9 +16,9 @@ TABLE = {
     "C12": (["rates", "corners"], ["eras", "gaps", "staking"], [4, 6], True, "pn_rate rows and batch status"),
     "C13": (["admission", "corners"], ["eras", "rates"], [1, 6], True, "balances and executed codes"),
     "C14": (["staking"], ["eras", "zerocollide"], [1, 2, 3, 6, 7], True, "balances, snapshots and staking coinbase rows"),
-    "C15": (["eras", "zeroing"], ["staking", "zerocollide"], [1, 6, 7], True, "balances of the listed addresses and coinbase rows"),
+    "C15": (["align", "zeroing"], ["eras", "staking", "zerocollide"], [1, 6, 7], True, "balances of the listed addresses and coinbase rows"),
     "C16": (["bank"], ["bankmixed", "eras"], [1, 5, 7], True, "balances, pn_bank rows, yields and refunds"),
-    "C17": (["eras", "dups"], ["bank", "staking", "admission"], [1, 6, 7, 8, 9, 10], True, "history, lookup, status and balances"),
+    "C17": (["bank", "dups", "corners"], ["eras", "staking", "admission"], [1, 6, 7, 8, 9, 10], True, "history, lookup, status and balances"),
     "C01": (["eras", "staking"], ["bank", "top100"], list(range(1, 13)), True, "every ledger table"),
 }
 
